@@ -52,6 +52,9 @@ func add(term, class string, nontrivial bool, desc interface{}) {
 	for _, m := range genRe.FindAllStringSubmatch(term, -1) {
 		n, _ := strconv.Atoi(m[2])
 		if m[1] == "TGen" || m[1] == "STags" {
+			if n >= 4096 && !strings.HasPrefix(term, "CMarshal") && !strings.HasPrefix(term, "CSize") && !strings.Contains(term, "(SEvery ") {
+				w += n / 400 * n // quadratic in Coq: see the grid loop in main
+			}
 			n *= 8
 		}
 		w += n / 5
@@ -438,6 +441,9 @@ func (s split) json() interface{} {
 
 // the splits of DESIGN.md: all at once, 1-byte reads, random, header/body boundary -1/0/+1
 func splitsFor(total, hdr, bodyStart int, small bool, mode int) []split {
+	if mode == 3 { // tens of thousands of tags: see the grid loop in main
+		return []split{{every: 97, name: "every-k"}, {name: "whole"}}
+	}
 	l := []split{{name: "whole"}}
 	if mode == 1 { // large payloads in the quick tier: the header chunkings are those of the small packets
 		if bodyStart > 0 && bodyStart < total {
@@ -733,7 +739,9 @@ func streamCases(p *pdesc, mode int) {
 	doUnmarshalStream(input, segs, p, len(enc), "ustream-chunk-"+lenClass(p.pay.n))
 	small := len(input) <= 4096
 	var sps []split
-	if mode > 0 {
+	if mode == 3 {
+		sps = []split{{every: 97, name: "every-k"}}
+	} else if mode > 0 {
 		sps = splitsFor(len(input), 45, len(enc)-p.pay.n, small, mode)
 	} else {
 		sps = []split{randomSplit(len(input), small)}
@@ -1104,7 +1112,7 @@ func malformed() {
 func main() {
 	fl := vh.ParseFlags()
 	out = vh.NewOut("C01", fl, "From XMT Require Import Base.Prelude Model.Codec Model.Packet.", "case", "check",
-		"packets over the grid payload length {0,1,2,254..257,65534..65537,100000[,256 KiB]} x tag count {0,1,2,255,256[,32767,32768]} (quick tier: lengths >= 65534 with 1-3 tag counts each and four chunkings; thorough: the full product) with random id/job/flag word/device, "+
+		"packets over the grid payload length {0,1,2,254..257,65534..65537,100000[,256 KiB]} x tag count {0,1,2,255,256} (quick tier: lengths >= 65534 with 1-3 tag counts each and four chunkings; thorough: the full product, 256 KiB with tags {0,256}, and 32767/32768 tags with payload lengths 0 and 255) with random id/job/flag word/device, "+
 			"each marshalled by the real code (bytes compared with the model) and read back through a chunking io.Reader replaying all-at-once / 1-byte / random / "+
 			"boundary+-1 splits with 0-64 trailing bytes (fields and bytes consumed compared); the same for the nested stream form (Chunk container and data.NewReader); "+
 			"concatenated packets; truncations at every offset, every class byte, forged 2^32/2^63 lengths; flag setters on random and single-bit words. "+
@@ -1150,6 +1158,16 @@ func main() {
 					continue
 				}
 				mode = 1
+			}
+			if T >= 32767 {
+				// thorough tier only.  Inside Coq every read of a tag measures the chunk it reads from
+				// (len c in read1, len s in rd_fixed), so 32768 tags in ONE chunk of 128 KiB cost minutes
+				// of vm_compute; small chunks are cheap.  Two payload lengths, chunks of 97 bytes plus one
+				// whole-buffer read each for the wire reader and the flat stream reader.
+				if L != 0 && L != 255 {
+					continue
+				}
+				mode = 3
 			}
 			p := mkPacket(L, T)
 			wireCases(p, mode)
